@@ -19,7 +19,7 @@ EXPLANATION = 'explicit enumeration of operation histories on the real Report/Fe
 
 def _setup():
     global Feedback, cmds, MAIN_REPORT, Formatter, HtmlFormatter, Location, CLASSES, CASES, OPS, SNAP, MyFmt
-    global CondT, CondF, CondX, MsgX, Args, Parent, Child, GrandChild, AllFmt
+    global CondT, CondF, CondX, MsgX, Args, Parent, Child, GrandChild, AllFmt, ConstF
     import importlib
     if globals().get('SNAP'):
         # a later phase in the same worker: put the library's classes back before they are snapshotted again
@@ -75,6 +75,12 @@ def _setup():
         message_template = ("{a:exception}|{a:filename}|{a:frame}|{a:inputs}|{a:line}|{a:name}|{a:output}|"
                             "{a:python_code}|{a:python_expression}|{a:python_value}|{b:>6}|{b!r}|{c[0]}|{c[1]:name}")
 
+    class ConstF(Feedback):
+        """declares constant fields and is created with keyword fields (no fields= dict)"""
+        category = 'instructor'
+        constant_fields = {'hint': 'check the spelling'}
+        message_template = "{a}: {hint}"
+
     class Parent(Feedback):
         category = 'instructor'
         title = 'ParentTitle'
@@ -98,7 +104,7 @@ def _setup():
              (g.gently, ('g',)), (g.explain, ('e',)), (g.compliment, ('c',)), (g.give_partial, (.5,)),
              (g.guidance, ('gu',)), (g.set_correct, ()), (g.system_error, ()),
              (initialization_problem, (Location(3), 'v')), (blank_source, ()), (not_enough_sections, (2, 1)),
-             (Parent, ()), (Child, ()), (GrandChild, ()), (AllFmt, ())]
+             (Parent, ()), (Child, ()), (GrandChild, ()), (AllFmt, ()), (ConstF, ())]
     kws = [dict(), dict(message="explicit"), dict(message_template="tpl {a}"), dict(label='lab', title='Ti'),
            dict(activate=False), dict(delay_condition=True), dict(muted=True, score='5%'), dict(location=7),
            dict(activate=False, else_message='else!')]
@@ -116,7 +122,7 @@ def _setup():
     globals()['OWN'] = {c: {a: (a in c.__dict__) for a in ATTRS} for c in CLASSES}
     # the curated op alphabet for histories
     pick = [i for i, (c, a, k) in enumerate(CASES)
-            if (c in (CondT, CondF, CondX, MsgX, Parent, Child, GrandChild, g.gently) and
+            if (c in (CondT, CondF, CondX, MsgX, Parent, Child, GrandChild, g.gently, ConstF) and
                 (k in (dict(a=1, b='nm'), dict(message="explicit"), dict(delay_condition=True, a=1, b='nm'))))
             or (c in (Args,) and k == {})]
     OPS = [('construct', i) for i in pick]
@@ -166,6 +172,7 @@ def _expected_trigger(cls, args, kw):
     return kw.get('activate', True)
 
 
+FIELD_SNAPS = []   # (feedback, its fields when created, its message) of this execution
 TARGET = None      # a caller-owned Report the constructions of this execution are addressed to (None: the global one)
 
 
@@ -225,6 +232,18 @@ def check_recorded(ctx, cls, args, kw, fb, exc, new_act, new_ign, fmt, hist, tag
         ctx.outcome('error-recorded')
         return
     rep = TARGET if TARGET is not None else MAIN_REPORT
+    # what the call supplied is what the object holds -- and keeps holding when later objects are created
+    for k2, v2 in list(kw.items()) + list((kw.get('fields') or {}).items()):
+        if k2 in ('a', 'b', 'c') and fb.fields.get(k2) != v2:
+            ctx.fail({'symptom': 'a field of the feedback is not the value the call supplied', **tag}, history=hist,
+                     field=k2, got=repr(fb.fields.get(k2))[:60], want=repr(v2)[:60])
+    FIELD_SNAPS.append((fb, {k2: repr(v2) for k2, v2 in fb.fields.items() if k2 in ('a', 'b', 'c', 'hint', 'location')},
+                        fb.message if bool(fb) else None, tag))
+    for old_fb, snap, old_msg, old_tag in FIELD_SNAPS[:-1]:
+        now = {k2: repr(v2) for k2, v2 in old_fb.fields.items() if k2 in ('a', 'b', 'c', 'hint', 'location')}
+        if now != snap or (old_msg is not None and old_fb.message != old_msg):
+            ctx.fail({'symptom': 'creating a feedback changed an earlier feedback object', 'class': old_tag['class']},
+                     history=hist, before=snap, after=now)
     cnt = sum(1 for f in new_act if f is fb) + sum(1 for f in new_ign if f is fb)
     cnt_all = sum(1 for f in rep.feedback if f is fb) + sum(1 for f in rep.ignored_feedback if f is fb)
     if cnt != 1 or cnt_all != 1:
@@ -279,6 +298,11 @@ def check_restored(ctx, hist, op):
 
 
 def _reset_everything():
+    del FIELD_SNAPS[:]
+    _reset_classes()
+
+
+def _reset_classes():
     """Between executions: the documented way (clear_report) -- and, so that one execution's leak
     cannot blame a later execution, force the snapshot back (a leak is reported where it happens)."""
     cmds.clear_report()
